@@ -417,6 +417,34 @@ def num_linear(p, res):
     res.require_floor(12)
 
 
+# ----------------------------------------------------------------- NUM-FRAC
+@rule('NUM-FRAC', 'N', 'fractional numbers are printed in fixed-point notation with a number of decimals (never in significant-digit / exponent notation)')
+def num_frac(p, res):
+    from .. import shape
+    f = p.func('stylesheet.color.frac')
+    defs = shape.defs_of(f.node, params=f.params)
+    n = 0
+    for b in f.body_nodes():
+        if not (isinstance(b, ast.BinOp) and isinstance(b.op, ast.Mod)):
+            continue
+        left = shape.expand(b.left, defs)
+        parts = shape.strparts(left) if isinstance(left, (ast.BinOp, ast.JoinedStr)) else ([left.value] if isinstance(left, ast.Constant) and isinstance(left.value, str) else None)
+        if not parts or not isinstance(parts[-1], str) or not isinstance(parts[0], str):
+            continue
+        n += 1
+        conv = parts[-1][-1:]
+        if conv == 'f' and parts[0].startswith('%.'):
+            res.ok('frac: %s (fixed point, <digits> decimals)' % src_of(b))
+        elif conv in ('g', 'G', 'e', 'E', 'r', 's'):
+            res.bad(F('NUM-FRAC', f, b, src_of(b), "conversion '%s' does not print a fixed number of decimals: a value with more significant digits is rounded differently or printed with an exponent" % conv,
+                      failing_input="expand('c#1.12345', {'type': 'stylesheet'})"))
+        else:
+            res.undecided('frac: %s' % src_of(b), "'%.<digits>f' expected")
+    if n == 0:
+        res.undecided('stylesheet.color.frac', 'no %-format found: how the number is printed is not decided')
+    res.require_floor(1)
+
+
 # ------------------------------------------------------------- NUM-SHORTHEX
 @rule('NUM-SHORTHEX', 'D', 'short hex is chosen only when every channel allows it; channels printed in r,g,b order')
 def num_shorthex(p, res):
